@@ -1,8 +1,10 @@
 package scen
 
 import (
+	"bytes"
 	"context"
 	"fmt"
+	"github.com/ipni/go-libipni/dagsync/ipnisync"
 	"strings"
 	"time"
 
@@ -77,6 +79,10 @@ type syncWorld struct {
 	relOrd  int // requests released so far in the current phase
 	plans   []faultPlan
 	fired   []string
+	// discAlter: the publisher's first discovery document arrives altered
+	// (1: still JSON, one character of the protocol's path changed; 2: the
+	// protocol listed without a path; 3: an empty document)
+	discAlter int
 }
 
 func (sw *syncWorld) pump() {
@@ -92,16 +98,23 @@ func (sw *syncWorld) pump() {
 func (sw *syncWorld) policy(q *simkit.ReqRecord) simkit.FaultSpec {
 	ord := sw.relOrd
 	sw.relOrd++
-	wellKnown := strings.HasPrefix(q.Path, "/.well-known/")
+	if sw.discAlter != 0 && strings.HasPrefix(q.Path, "/.well-known/") {
+		kind := sw.discAlter
+		sw.discAlter = 0
+		sw.w.R.Fault(fmt.Sprintf("discovery-document-altered-%d", kind))
+		sw.fired = append(sw.fired, "discovery-altered")
+		return simkit.FaultSpec{Kind: simkit.FRewrite, Rewrite: func(b []byte) []byte {
+			switch kind {
+			case 1:
+				return bytes.Replace(b, []byte(`"path":"/ipni/v1/ad/"`), []byte(`"path":"/ipni/v1/ae/"`), 1)
+			case 2:
+				return []byte(`{"` + string(ipnisync.ProtocolID) + `":{}}`)
+			}
+			return []byte(`{}`)
+		}}
+	}
 	for _, p := range sw.plans {
 		if p.at != ord {
-			continue
-		}
-		if wellKnown && (p.kind == fkFlip || p.kind == fkSubstitute || p.kind == fkAppend) {
-			// go-libp2p v0.41.1 (a dependency, not go-libipni) indexes an
-			// empty protocol path taken from an altered discovery document
-			// and panics; altered discovery bodies are therefore not part
-			// of the fault menu (transport-level faults on them are).
 			continue
 		}
 		var f simkit.FaultSpec
@@ -213,6 +226,7 @@ func (sw *syncWorld) arm(expected []cid.Cid) {
 
 func (sw *syncWorld) disarm() {
 	sw.plans = nil
+	sw.discAlter = 0
 	sw.sub.FailAt = map[cid.Cid]error{}
 	st := sw.sub.Store
 	st.FailCommit, st.FailWrite, st.FailOpen, st.LoseCommit = nil, nil, nil, nil
@@ -418,6 +432,9 @@ func runFaultSync(r *simkit.Run, c Cfg, mode string, planner planFunc) {
 
 	// Phase 1: the faulty attempt.
 	sw.plans = plans
+	if c.Case < 0 && cfg.discovery && cfg.preSynced == 0 && r.Tape.Chance(1, 3, "discAlter") {
+		sw.discAlter = 1 + r.Tape.Choose(3, "discAlter.kind")
+	}
 	sw.relOrd = 0
 	sw.arm(expected)
 	for _, p := range plans {
